@@ -28,7 +28,7 @@ ASSUMPTIONS = [
 MIN = {
     "quick": {"variant_support": 500, "reference_support": 400, "no_record_is_reference": 2000,
               "ref_differs_reexpressed": 40, "odd_records_ignored": 60, "heterozygous_called": 40},
-    "thorough": {"variant_support": 20000, "reference_support": 15000, "no_record_is_reference": 50000,
+    "thorough": {"variant_support": 12000, "reference_support": 10000, "no_record_is_reference": 50000,
                  "ref_differs_reexpressed": 1000, "odd_records_ignored": 1500, "heterozygous_called": 1000},
 }
 CASE_TIMEOUT = {"quick": 900, "thorough": 3000}
